@@ -116,6 +116,15 @@ static void probe(void *vs)
 {
     st_t *s = vs; spif_vector_t v = s->v; const char *shape = s->n == 0 ? "empty vector" : "non-empty vector";
     mc_set_shape(shape);
+    /* a second vector of the same class lives next to this one for a moment: its first insert right after whatever this one just did concerns only itself */
+    { spif_vector_t b = new_vec(); spif_obj_t x = S_("m");
+      if (!SPIF_VECTOR_INSERT(b, x)) FAIL(site("insert"), "model:return", shape, "insert into a second, empty vector returned FALSE");
+      spif_iterator_t it = SPIF_VECTOR_ITERATOR(b); int n = 0; spif_obj_t first = NULL;
+      while (it && n < 4 && SPIF_ITERATOR_HAS_NEXT(it)) { spif_obj_t g = SPIF_ITERATOR_NEXT(it); if (!n) first = g; n++; }
+      if (it) SPIF_ITERATOR_DEL(it);
+      if ((int) SPIF_VECTOR_COUNT(b) != 1 || n != 1 || first != x) FAIL(site("insert"), "model:second-vector", shape, "a second vector holds count=%d and iterates %d elements after its first insert", (int) SPIF_VECTOR_COUNT(b), n);
+      for (int q = 0; q < NPROBE; q++) { spif_obj_t p = S_(PROBE[q]); if (SPIF_VECTOR_CONTAINS(b, p)) FAIL(site("contains"), "model:second-vector", shape, "a second vector that holds only \"m\" contains(%s)", PROBE[q]); SPIF_OBJ_DEL(p); }
+      SPIF_VECTOR_DEL(b); }
     if ((int) SPIF_VECTOR_COUNT(v) != s->n) FAIL(site("count"), "model:return", shape, "count=%d model %d", (int) SPIF_VECTOR_COUNT(v), s->n);
     for (int x = 0; x < NPROBE; x++) {
         spif_obj_t p = S_(PROBE[x]); const char *sh = shape_for(s, x); int present = x < NV && s->cnt[x] > 0;
